@@ -150,7 +150,7 @@ func (ss *SpecSet) LoadSpecFile(path, pkgPath string) error {
 				continue
 			}
 		}
-		if t == "" {
+		if t == "" || strings.HasPrefix(t, "//") {
 			continue
 		}
 		if j := strings.Index(t, " //"); j >= 0 && !strings.Contains(t[:j], "\"") {
